@@ -85,6 +85,8 @@ def ty_src(t, defs):
         return q(PY_NAME[k])
     a = t.get('a', [])
     if k == 'optional':
+        if t.get('sp') == 'none_first':
+            return f'{q("Union")}[None, {ty_src(a[0], defs)}]'
         return f'{q("Optional")}[{ty_src(a[0], defs)}]'
     if k == 'union':
         return q('Union') + '[' + ', '.join(ty_src(x, defs) for x in a) + ']'
